@@ -764,7 +764,8 @@ def run_loop_slice(eng, contract, d, st, fr, result):
                 outs0 = eng.exec_stmt(body, st, fr)
             finally:
                 eng.stop_at_loop = None
-            return [(s_, ('loop-entry',)) for s_ in eng.stopped_states] + [(s_, o_) for (s_, o_) in outs0 if o_ is not None and o_[0] in ('throw', 'continue', 'break', 'ret')]
+            # paths that leave the iteration without reaching the inner loop are reported too (outcome None = fell off the end of the body)
+            return [(s_, ('loop-entry',)) for s_ in eng.stopped_states] + [(s_, o_) for (s_, o_) in outs0 if o_ is None or o_[0] in ('throw', 'continue', 'break', 'ret')]
         return eng.exec_stmt(body, st, fr)
     finally:
         eng.lazy_locals = False
